@@ -608,6 +608,8 @@ func init() {
 		reg("sync/atomic.Load"+ty, func(in *Interp, fr *frame, args []Value) Value { return in.loadFrom(args[0]) })
 		reg("sync/atomic.Store"+ty, func(in *Interp, fr *frame, args []Value) Value { in.storeTo(args[0], args[1]); return nil })
 		reg("sync/atomic.Add"+ty, func(in *Interp, fr *frame, args []Value) Value {
+			// a read-modify-write is a synchronisation operation: a preemption point within the bound
+			in.sched.maybePreempt()
 			v := Add(in.loadFrom(args[0]).(*Term), args[1].(*Term))
 			in.storeTo(args[0], v)
 			return v
